@@ -66,6 +66,131 @@ def gen_program(rng):
     return "\n".join(lines) + "\n"
 
 
+# ------------------------------------------------------------------ the marker class
+# String tokens whose TEXT itself begins with the character(s) the loaders strip or test: the '^' text
+# marker (stripped exactly once by both jtoken_to_runtime_object), the lone "\n" token, and the first
+# characters / whole names of the other token kinds (glue, control commands, native calls, void, numbers,
+# the keys of divert / variable / tag objects).  Reached (a) through the compiler, by programs whose text
+# lines, text after `{expr}`, string literals, choice texts and tags start with such characters, and (b)
+# through hand-written documents whose string tokens are "^" + marker + tail.
+SCRIPT_M = [["GLOBALTAGS"], ["GETVAR", "s"], ["CONT_MAX"], ["GETVAR", "s"], ["CHOOSE", 0], ["CONT_MAX"],
+            ["CHOOSE", 1], ["CONT"], ["CONT_MAX"], ["CHOOSE", 0], ["CONT_MAX"], ["GETVAR", "s"]]
+SCRIPT_M2 = [["GETVAR", "s"], ["CONT_MAX"], ["CHOOSE", 1], ["CONT_MAX"], ["GETVAR", "s"], ["CHOOSE", 0], ["CONT_MAX"],
+             ["EVAL", "f", ["^^z"]], ["EVAL", "f", ["^"]]]
+
+CARETS = ["^", "^^", "^^^", "^_^ ", "^ ", "^2", "^^2 and ", "\\^", "^\\^"]
+# source forms of text that starts like another token kind (escaped where ink needs it)
+INK_STARTS = ["\\#", "\\<>", "<>", "\\{", "\\~", "\\*", "\\=", "\\+", "\\-", "\\[", "\\|", "\\\\", "\\/\\/", "1", "-1",
+              "0.5", "2e3", "L^", "ev", "/ev", "str", "/str", "void", "done", "end", "out", "pop", "nop", "du", "true",
+              "null", "x -\\> ", "é^", "\U0001f600^", "\\n", "!", "?", "&&", "%", "_", "G>", "==", "#f",
+              "-\\>", "thread", "\\n^"]
+TAG_STARTS = ["<>", "1", "-1", "0.5", "L^", "ev", "/ev", "void", "done", "#", "\\n", "é^", "-\\>x", "!", "==", "/#",
+              "*"]
+STR_STARTS = ["->", "#", "<>", "~", "*", "=", "+", "-", "[", "|", "//", "1", "-1", "0.5", "L^", "ev", "/ev", "str",
+              "/str", "void", "done", "end", "\\n", "é^", "\U0001f600^", " ", "!", "==", "^->", "^var", "VAR=", "x()",
+              "\\^", "\\\\", "/#"]
+TAILS = ["", "", "x", "2", " y", "_^", "^", "2 and ", " ^", "é", "^^"]
+
+
+def marker_text(rng, starts, p_marker=0.5):
+    """a text whose beginning is (with probability p_marker) from the marker class"""
+    if rng.random() >= p_marker:
+        return rng.choice(["w", "plain", "a b", "Z9"])
+    head = rng.choice(CARETS) if rng.random() < 0.5 else rng.choice(starts)
+    return head + rng.choice(TAILS)
+
+
+def gen_marker_program(rng):
+    """ink programs in which every place where the compiler starts a new string token (line start, text after
+    an inline expression / glue / choice bracket, branches of conditionals and sequences, string literals and
+    string arguments, tags) may begin with a marker-class character"""
+    L = lambda: marker_text(rng, INK_STARTS)
+    B = lambda: marker_text(rng, [x for x in INK_STARTS if "{" not in x])     # inside { ... }
+    S = lambda: marker_text(rng, STR_STARTS, 0.7)
+    Tg = lambda: marker_text(rng, TAG_STARTS)
+    lines = ["VAR n = 2", f'VAR s = "{S()}"', 'VAR t = ""']
+    if rng.random() < 0.4:
+        lines.append("# " + Tg())
+    body = [L(),
+            "Area {n}" + L(),
+            "{s}" + L() + ' and {"' + S() + '" + s}',
+            f'~ s = "{S()}"',
+            "~ t = s",
+            '{t == s:' + B() + '|' + B() + '}',
+            '{f("' + S() + '")}' + L(),
+            L() + " # " + Tg(),
+            "<>" + L(),
+            '{s != "' + S() + '":' + B() + '}']
+    rng.shuffle(body)
+    lines += body[:rng.randint(4, len(body))]
+    lines += [f"* {L()} [{L()}] {L()} # {Tg()}", "  " + L(),
+              f"* {L()}", "  {&" + B() + "|" + B() + "}",
+              "- " + L(),
+              f'~ s = s + "{S()}"',
+              f"* [{L()}]", f"* {L()}[]{L()}",
+              "- " + L() + "{s}" + L(), "-> END",
+              "=== function f(x) ===", f'~ return "{S()}" + x']
+    return "\n".join(lines) + "\n"
+
+
+# minimised forms of demonstrated loader divergences (regression corpus; the generators above reach the class)
+MARKER_REGRESSION = [
+    ("text-after-inline-expression", "VAR r = 3\nArea: pi * {r}^2\n-> END\n"),
+    ("line-starting-with-caret", "^_^ she smiled.\n* ^^ [^]^\n  ^\n- ^^\n-> END\n"),
+    ("caret-string-variable", 'VAR s = "^^"\nVAR u = "^"\n{s}{u}|{s == "^^":same}\n~ s = "^" + u\n{s}\n-> END\n'
+                              '=== function f(x) ===\n~ return "^" + x\n'),
+]
+
+JSON_MARKS = ["^", "^^", "^^^", "\n", "\n\n", "^\n", "<>", "ev", "/ev", "str", "/str", "void", "L^", "+", "-", "1", "-1",
+              "0.5", "->", "#", "/#", "", " ", "é", "\U0001f600", "\\n", "\t", "done", "end", "{", "[", '"', "\\",
+              "^->", "^var", "VAR=", "G>", "nop", "out", "pop", "\r", " ", "\x00"]
+# string tokens WITHOUT the text marker that are not the name of anything: both loaders must reject them
+RAW_BAD = ["\n\n", "\nx", "\n^", "", " ^x", "é^", "x^", "L", "\r", "\n "]
+
+
+def marker_token(rng):
+    return "^" + rng.choice(JSON_MARKS) + rng.choice(TAILS)
+
+
+def gen_marker_doc(rng):
+    """hand-written story document: string tokens of the marker class in content, in evaluated strings, as the
+    initial value and a later value of a global, in tags, in choice texts; played by SCRIPT_M"""
+    tok = lambda: marker_token(rng)
+    pieces = [
+        lambda: [tok(), "\n"],
+        lambda: ["ev", "str", tok(), "/str", "out", "/ev", "\n"],
+        lambda: ["ev", {"VAR?": "s"}, "out", "/ev", tok(), "\n"],
+        lambda: ["#", tok(), "/#", tok(), "\n"],
+        lambda: ["ev", "str", tok(), "/str", "str", tok(), "/str", rng.choice(["==", "+", "!=", "?"]), "out", "/ev", "\n"],
+        lambda: ["ev", "str", tok(), "/str", "/ev", {"VAR=": "s", "re": True}],
+        lambda: [tok(), "<>", tok(), "\n"],
+        lambda: ["ev", {"VAR?": "s"}, "str", tok(), "/str", "+", "/ev", {"VAR=": "s", "re": True}],
+        lambda: ["\n"],
+    ]
+    content = []
+    for _ in range(rng.randint(2, 7)):
+        content += rng.choice(pieces)()
+    if rng.random() < 0.12:
+        content.insert(rng.randrange(len(content) + 1), rng.choice(RAW_BAD))
+    k = len(content)
+    if rng.random() < 0.6:
+        content += ["ev", "str", tok(), "/str", "str", tok(), "/str", "/ev", {"*": "0.c-0", "flg": 22},
+                    {"c-0": [tok(), "\n", "ev", {"VAR?": "s"}, "out", "/ev", "\n", "done", {"#f": 5}]}]
+    else:
+        content += ["done", None]
+    decl = ["ev", "str", tok(), "/str", {"VAR=": "s"}, "/ev", "end", None]
+    doc = {"inkVersion": 21, "root": [content, "done", {"global decl": decl}], "listDefs": {}}
+    return json.dumps(doc, ensure_ascii=False, separators=(",", ":"))
+
+
+def script_for(doc_id):
+    base = doc_id.split("|")[0]
+    if base.startswith(("mgen:", "mreg:", "mdoc:")):
+        tail = base.rsplit(":", 1)[1]
+        return SCRIPT_M2 if tail.isdigit() and int(tail) % 2 else SCRIPT_M
+    return SCRIPT
+
+
 def rand_body(rng):
     """body of a JSON string literal: raw characters and escapes, valid and invalid"""
     alph = ['a', '"', '\\', '/', 'b', 'f', 'n', 'r', 't', 'u', '0', '9', 'A', 'F', 'd', '8', 'D', 'c', '\t', '\n',
@@ -240,6 +365,11 @@ def documents(ctx, exe_d):
     ngen = 60 if ctx.quick() else 600
     for i in range(ngen):
         inks.append(("gen:%d" % i, gen_program(ctx.rng)))
+    nmark = 40 if ctx.quick() else 400
+    for i, (name, src) in enumerate(MARKER_REGRESSION):
+        inks.append(("mreg:%s:%d" % (name, i), src))
+    for i in range(nmark):
+        inks.append(("mgen:%d" % i, gen_marker_program(ctx.rng)))
     res = vlib.run_inkdrive([{"id": i, "ink": src, "want_json": True, "script": []} for i, src in inks], exe_d)
     ncompiled = 0
     for (i, src), r in zip(inks, res):
@@ -249,7 +379,9 @@ def documents(ctx, exe_d):
     if ctx.quick():
         ref = [d for d in docs if d[0].startswith("ref:")][::2]
         ours = [d for d in docs if d[0].startswith("ours:")][::2]
-        docs = ref + ours + [d for d in docs if d[0].startswith("gen:")]
+        docs = ref + ours + [d for d in docs if d[0].startswith(("gen:", "mgen:", "mreg:"))]
+    for i in range(nmark):
+        docs.append(("mdoc:%d" % i, gen_marker_doc(ctx.rng)))
     out = []
     for i, t in docs:
         out.append((i, t))
@@ -259,11 +391,15 @@ def documents(ctx, exe_d):
             continue
         out.append((i + "|ascii", json.dumps(v, ensure_ascii=True, separators=(",", ":"))))
         out.append((i + "|indent", json.dumps(v, ensure_ascii=False, indent=2)))
-    return out, ncompiled, len(inks)
+    stats = dict(compiled=ncompiled, ink_sources=len(inks),
+                 marker_programs=sum(1 for i, _ in inks if i.startswith("mgen:")),
+                 marker_programs_compiled=sum(1 for i, _ in docs if i.startswith("mgen:")),
+                 marker_documents=nmark)
+    return out, stats, dict(inks)
 
 
-def run_builds(exe_d, exe_s, docs):
-    cases = [{"id": i, "story": t, "audit": True, "script": SCRIPT, "fuel": 20000} for i, t in docs]
+def run_builds(exe_d, exe_s, docs, script=None):
+    cases = [{"id": i, "story": t, "audit": True, "script": script or script_for(i), "fuel": 20000} for i, t in docs]
     return vlib.run_inkdrive(cases, exe_d), vlib.run_inkdrive(cases, exe_s)
 
 
@@ -294,7 +430,7 @@ def classify(doc, facts):
 
 
 def differential(ctx, exe_d, exe_s, facts):
-    docs, ncompiled, ninks = documents(ctx, exe_d)
+    docs, dstats, inks = documents(ctx, exe_d)
     rd, rs = run_builds(exe_d, exe_s, docs)
     cand = [k for k in range(len(docs)) if view(rd[k]) != view(rs[k])]
     fails = []
@@ -306,15 +442,110 @@ def differential(ctx, exe_d, exe_s, facts):
         rd3, rs3 = run_builds(exe_d, exe_s, sub)
         for n, k in enumerate(cand):
             if view(rd2[n]) == view(rd[k]) == view(rd3[n]) and view(rs2[n]) == view(rs[k]) == view(rs3[n]):
-                fails.append(dict(kind=classify(docs[k][1], facts), doc_id=docs[k][0], story=docs[k][1],
-                                  diff=first_difference(rd[k], rs[k]), script=SCRIPT))
+                f = dict(kind=classify(docs[k][1], facts), doc_id=docs[k][0], story=docs[k][1],
+                         diff=first_difference(rd[k], rs[k]), script=script_for(docs[k][0]))
+                src = inks.get(docs[k][0].split("|")[0])
+                if src is not None:
+                    f["ink"] = src
+                fails.append(f)
+        # the smallest document first: it becomes the reported input of its class
+        fails.sort(key=lambda f: len(f["story"]))
     nobj = sum(len(r.get("audit") or []) for r in rd if isinstance(r.get("audit"), list))
     loaded = sum(1 for r in rd if r.get("load") == "ok")
-    stats = dict(documents=len(docs), loaded_ok_default=loaded, audited_objects=nobj, compiled=ncompiled,
-                 ink_sources=ninks, unstable_excluded=len(cand) - len(fails),
+    mtok = [t for i, t in docs if "|" not in i and i.startswith(("mgen:", "mreg:", "mdoc:"))]
+    stats = dict(dstats, documents=len(docs), loaded_ok_default=loaded, audited_objects=nobj,
+                 unstable_excluded=len(cand) - len(fails),
                  with_u_escapes=sum(1 for _, t in docs if "\\u" in t),
-                 with_tab_escape=sum(1 for _, t in docs if "\\t" in t))
-    return fails, stats
+                 with_tab_escape=sum(1 for _, t in docs if "\\t" in t),
+                 marker_tokens=sum(len(MARKER_TOKEN_RE.findall(t)) for t in mtok),
+                 marker_tokens_double_caret=sum(len(re.findall(r'"\^\^', t)) for t in mtok),
+                 marker_docs_loaded_ok=sum(1 for (i, _), r in zip(docs, rd) if i.startswith("mdoc:") and "|" not in i
+                                           and r.get("load") == "ok"))
+    return fails, stats, docs, rd
+
+
+# a string token "^" + (caret | newline escape | first character of another token kind)
+MARKER_TOKEN_RE = re.compile(r'"\^(?:\^|\\n|\\r|\\t|<>|->|#|/#|/?ev\b|/?str\b|void\b|done\b|end\b|L\^|[-+*/=!?{\[|~]|\d|\\\\|\\"|")')
+
+
+# ------------------------------------------------------------------ correspondence: loader + engine models on the marker class
+def marker_model_tie(ctx, exe_d, docs, rd):
+    """Json/StdLoad.v (through AuditRun.run_audit: every loaded object, strings with their exact text) and the
+    engine model (Engine/Run.v: the played transcript) against the default build on the marker-class documents.
+    Returns (mismatches, evaluations, stats)."""
+    from props import c19_tree
+    lim = 32 if ctx.quick() else 400
+    idx = [k for k, (i, t) in enumerate(docs) if "|" not in i and i.startswith(("mgen:", "mreg:", "mdoc:"))
+           and len(t) < 20000]
+
+    def pick(ks, n):
+        """the regression documents, then generated programs and hand-written documents alternately"""
+        reg = [k for k in ks if docs[k][0].startswith("mreg:")]
+        a = [k for k in ks if docs[k][0].startswith("mgen:")]
+        b = [k for k in ks if docs[k][0].startswith("mdoc:")]
+        mix = [k for pair in zip(a, b) for k in pair] + a[len(b):] + b[len(a):]
+        return reg + mix[:n]
+    idx = pick(idx, lim)
+    mism, evals, stats = [], 0, dict(audit_compared=0, audit_objects=0, load_outcomes_compared=0)
+    if not idx:
+        return mism, evals, stats
+    parsed = []
+    for k in idx:
+        try:
+            parsed.append((k, json.loads(docs[k][1])))
+        except ValueError:
+            pass
+    okb, logb = ctx.build(["theories/Json/AuditRun.vo"])
+    if not okb:
+        raise RuntimeError("AuditRun does not build: " + logb[-800:])
+    model = vlib.coq_eval_sharded("From Ink.Json Require Import StdLoad AuditRun.\n",
+                                  [f"run_audit {vlib.json2coq(j)}" for _, j in parsed],
+                                  shard=max(2, (len(parsed) + 7) // 8), name="c14audit")
+    for (k, _), m in zip(parsed, model):
+        r, did = rd[k], docs[k][0]
+        ml = m.split("\n")
+        head, ml = ml[0], ml[1:]
+        load = r.get("load")
+        stats["load_outcomes_compared"] += 1
+        evals += 1
+        if head.startswith("load=ok"):
+            # Story::new may still fail after the load proper (running `global decl`): not BadJson
+            if load == "err(BadJson)" or load == "panic":
+                mism.append(dict(op="loader-model", doc_id=did, story=docs[k][1][:600], impl="load=" + str(load), model=head))
+                continue
+            if load != "ok" or not isinstance(r.get("audit"), list):
+                continue
+            il = [c19_tree.canon_impl_line(l) for l in r["audit"]]
+            stats["audit_compared"] += 1
+            stats["audit_objects"] += len(il)
+            if il != ml:
+                j = next((j for j, (a, b) in enumerate(zip(il, ml)) if a != b), min(len(il), len(ml)))
+                mism.append(dict(op="loader-model", doc_id=did, story=docs[k][1][:600], line=j,
+                                 impl=(il[j] if j < len(il) else "<end>")[:300],
+                                 model=(ml[j] if j < len(ml) else "<end>")[:300]))
+        elif head.startswith("load=err"):
+            if not str(load).startswith("err"):
+                mism.append(dict(op="loader-model", doc_id=did, story=docs[k][1][:600], impl="load=" + str(load), model=head))
+        elif load != "panic":
+            mism.append(dict(op="loader-model", doc_id=did, story=docs[k][1][:600], impl="load=" + str(load), model=head))
+    # engine model: play transcript (GETVAR / EVAL / tags / choices / text) of the same documents
+    try:
+        import engine
+        elim = 16 if ctx.quick() else 200
+        eidx = pick([k for k, _ in parsed if rd[k].get("load") == "ok"], elim)
+        ecases = [{"id": docs[k][0], "story": docs[k][1], "script": script_for(docs[k][0]), "fuel": 20000} for k in eidx]
+        est = {}
+        for r in engine.compare(ecases, exe=exe_d, shard=max(1, (len(ecases) + 3) // 4)):
+            est[r["status"]] = est.get(r["status"], 0) + 1
+            if r["status"] == "agree":
+                evals += 1
+            elif r["status"] == "mismatch":
+                story = next(c["story"] for c in ecases if c["id"] == r["id"])
+                mism.append(dict(op="engine-model", doc_id=r["id"], story=story[:600], first_diff=r.get("first_diff")))
+        stats["engine_model_status"] = est
+    except Exception as e:            # the engine model is another development; report, do not crash
+        stats["engine_model_status"] = dict(error=str(e)[-300:])
+    return mism, evals, stats
 
 
 def number_probes(exe_d, exe_s):
@@ -417,7 +648,20 @@ def run(ctx):
         mism, evals, samples = text_layer_correspondence(ctx, exe_t, has_hook, n)
     except RuntimeError as e:
         mism, evals, samples = [dict(op="model-does-not-evaluate", err=str(e)[-600:])], 0, []
-    fails, stats = differential(ctx, exe_d, exe_s, facts)
+    fails, stats, docs, rd = differential(ctx, exe_d, exe_s, facts)
+    try:
+        mm, mevals, mstats = marker_model_tie(ctx, exe_d, docs, rd)
+    except RuntimeError as e:
+        mm, mevals, mstats = [dict(op="model-does-not-evaluate", err=str(e)[-600:])], 0, {}
+    mism += mm
+    evals += mevals
+    stats["marker_model_tie"] = mstats
+    by_src = {}
+    for f in fails:
+        src = f["doc_id"].split(":")[0]
+        by_src[src] = by_src.get(src, 0) + 1
+    stats["failing_documents_by_source"] = by_src
+    stats["model_mismatches_by_op"] = {o: sum(1 for m in mism if m.get("op") == o) for o in {m.get("op") for m in mism}}
     probes = number_probes(exe_d, exe_s)
 
     ctx.coverage.update(dict(
@@ -425,7 +669,13 @@ def run(ctx):
         rule="(a) two harness builds (serde loader / stream-json-parser) x story documents = reference corpus + this "
              "compiler on the corpus sources and on generated programs with tabs, quotes, backslashes, control and "
              "non-BMP characters, each also re-serialised by Python with ensure_ascii (\\uXXXX, surrogate pairs) and "
-             "indent=2; audit listing (one line per runtime object) and a play transcript are diffed; "
+             "indent=2; plus the MARKER CLASS (string tokens whose text begins with the characters the loaders strip or "
+             "test: ^ ^^ \\n, glue / command / native / void names, digits, object keys): generated programs whose text "
+             "lines, text after {expr}, string literals, choice texts and tags start with them, hand-written documents "
+             "with \"^\"+marker+tail tokens in content / evaluated strings / globals / tags / choices, and marker-less "
+             "tokens both loaders must reject; audit listing (one line per runtime object) and a play transcript "
+             "(incl. GETVAR / EVAL of string globals) are diffed; the marker documents are also loaded by Json/StdLoad.v "
+             "(audit lines vs the default build) and played by the engine model (transcript vs the default build); "
              "(b) tokenizer model vs hook verif_tokenize on generated string literals / number literals / token "
              "sequences; (c) JsonStd.parse_json vs serde_json::from_str on generated and mutated texts, "
              "serde_string vs serde_json::to_string",
@@ -466,7 +716,7 @@ def replay(ctx, payload):
     n = 0
     if "story" in r:
         docs = [(r.get("doc_id", "replay"), r["story"])]
-        rd, rs = run_builds(exe_d, exe_s, docs)
+        rd, rs = run_builds(exe_d, exe_s, docs, script=r.get("script"))
         n = 1
         if view(rd[0]) != view(rs[0]):
             ctx.violation(f"{r.get('kind')}: {json.dumps(first_difference(rd[0], rs[0]), ensure_ascii=False)[:300]}",
